@@ -479,22 +479,7 @@ func Checks() map[string]*simcore.Check {
 		},
 		"C39": {
 			ID: "C39", Engine: "chainsim", Level: "fault_enumeration",
-			Rule: "plan = the C38 world and history generator (4-16 operations incl. explicit state commits, snapshot flattening, SetFinalized + Freeze, SetHead, clean restarts) executed once on the uncrashed twin; every mutation unit of the key-value store and every file mutation / fsync of the chain freezer, pathdb journal and state-history freezers is recorded with one shared sequence number. Each run is then cut at recorded sequence numbers (quick: seeded sample of 24 cuts biased to file events and operation boundaries; thorough: every cut) and each cut is materialised as a process-crash image (all units/events up to the cut) plus 1-2 power-loss images (key-value store loses a drawn suffix of the units after its last sync barrier; per file a drawn prefix of its unsynced writes, torn last write or zero-filled extension); rawdb.Open + core.NewBlockChain reboot on the image. evaluations = histories; non-trivial = history with at least one reorganisation to a non-descendant; distinct = distinct (operation kind, resulting head) sequences.",
-			Assumptions: []string{
-				"the harness never asks for a reorganisation that would drop the finalized block (the consensus layer never does)",
-				"SetHead and a restart emit no log events by design; the live-log model is re-based on the canonical chain after them",
-				"SetCanonical is not called with the current head (the engine API never does)",
-			},
-			Components: comps, Perturbed: perturbed,
-			Runs: map[string]int{"quick": 1600, "thorough": 60000},
-			Gen:  gen(false), Decode: decode, Run: runC38, Shrink: shrink,
-			ProbeNames: []string{"reorg", "reorg-equal-height", "removed-logs-event", "insert-on-pruned-parent", "insert-known-blocks", "child-before-parent-refused",
-				"setcanonical-without-state", "setcanonical-ancestor", "sethead-below-frozen", "sethead-block-below-header", "freeze-moved-blocks",
-				"explicit-state-commit", "snapshot-flattened", "restart", "lookup-resolved", "lookup-unindexed-below-limit"},
-		},
-		"C39": {
-			ID: "C39", Engine: "chainsim", Level: "fault_enumeration",
-			Rule: "plan = the C38 world and history generator (4-16 operations incl. explicit state commits, snapshot flattening, SetFinalized + Freeze, SetHead, clean restarts) executed once on the uncrashed twin; every mutation unit of the key-value store and every file mutation / fsync of the chain freezer, pathdb journal and state-history freezers is recorded with one shared sequence number. Each run is then cut at recorded sequence numbers (quick: seeded sample of 24 cuts biased to file events and operation boundaries; thorough: every cut) and each cut is materialised as a process-crash image (all units/events up to the cut) plus 1-2 power-loss images (key-value store loses a drawn suffix of the units after its last sync barrier; per file a drawn prefix of its unsynced writes, torn last write or zero-filled extension); rawdb.Open + core.NewBlockChain reboot on the image. Half of the sampled restarts (one in six when every cut is taken) are recorded the same way and second crashes are cut into their start-up phase (image = first image + the restart's writes up to the cut; fault counter second-crash); a clean reopen may switch snapshots on/off and every image is restarted with the configuration in force at its cut. evaluations = histories; reboots = crash states rebooted. Non-trivial = run with more than 2 reboots; distinct = distinct (cut, mode, rebooted head number) sequences.",
+			Rule: "plan = the C38 world and history generator (4-16 operations incl. explicit state commits, snapshot flattening, SetFinalized + Freeze, SetHead, clean restarts) executed once on the uncrashed twin; every mutation unit of the key-value store and every file mutation / fsync of the chain freezer, pathdb journal and state-history freezers is recorded with one shared sequence number. Each run is then cut at recorded sequence numbers (quick: seeded sample of 24 cuts biased to file events and operation boundaries; thorough: every cut) and each cut is materialised as a process-crash image (all units/events up to the cut) plus 1-2 power-loss images (key-value store loses a drawn suffix of the units after its last sync barrier; per file a drawn prefix of its unsynced writes, torn last write or zero-filled extension); rawdb.Open + core.NewBlockChain reboot on the image. evaluations = histories; reboots = crash states rebooted. Non-trivial = run with more than 2 reboots; distinct = distinct (cut, mode, rebooted head number) sequences.",
 			Assumptions: []string{
 				"key-value store: a batch is one atomic write-ahead-log record; after power loss a suffix of the units written since the last SyncKeyValue may be missing, never a unit in the middle",
 				"files: directory-entry operations are durable immediately; file data is durable at fsync of that file (every Sync of the tree under test is seen); key-value store and files lose data independently",
